@@ -164,6 +164,30 @@ def run(ctx):
             except Exception as ex:
                 spec_fail.append((kind, "density matrix runs", {"norb": norb, "nelec": ne, "error": repr(ex)[:300]}))
 
+    # determinant lists in a closed shell whose reference determinant has different alpha and beta occupations: restricted entry
+    # (single array of walkers) = unrestricted entry on equal blocks = the explicit sum
+    for norb, ne in ((4, (2, 2)), (3, (1, 1)), (4, (1, 1))):
+        try:
+            trial, wd, desc = trials.make("multislater", rng, norb, ne, reference="split")
+            sec, psi = trials.state("multislater", trial, wd, desc)
+            scale = max(1.0, float(np.abs(psi).max()))
+            ws = [wf.complex_walker(rng, norb, ne[0]) for _ in range(3)]
+            for W in ws:
+                want = trials.spec_overlap(sec, psi, W, W)
+                r = complex(trial._calc_overlap_restricted(jnp.array(W), wd))
+                u = complex(trial._calc_overlap(jnp.array(W), jnp.array(W), wd))
+                evals += 2
+                if not wf.close(r, want, TOL * scale) or not wf.close(u, want, TOL * scale):
+                    spec_fail.append(("multislater", "restricted and unrestricted entry points agree when the spin blocks coincide",
+                                      {"norb": norb, "nelec": ne, "reference": [list(map(int, d)) for d in desc["dets"][0][:2]], "restricted": str(r), "unrestricted": str(u), "want": str(want)}))
+                    break
+            b = np.array(trial.calc_overlap(jnp.array(ws), wd))
+            single = [trials.spec_overlap(sec, psi, W, W) for W in ws]
+            if not all(wf.close(complex(x), y, TOL * scale) for x, y in zip(b, single)):
+                spec_fail.append(("multislater", "batched restricted overlaps equal <psi_T|phi> in walker order",
+                                  {"norb": norb, "nelec": ne, "reference": [list(map(int, d)) for d in desc["dets"][0][:2]]}))
+        except Exception as ex:
+            spec_fail.append(("multislater", "split-reference determinant list can be evaluated", {"norb": norb, "nelec": ne, "error": repr(ex)[:300]}))
     ctx.cov["evaluations"] = evals + len(refs)
     ctx.cov["distinct_nontrivial"] = sum(dist.values()) + len(refs)
     ctx.cov["rule"] = ("(a) rhf/uhf with complex non-orthonormal trial orbitals and complex walkers, norb 3-4, incl. n_dn=0, compared with the "
